@@ -37,7 +37,7 @@ Inductive ev := EAdd (r : rule) | ERem (r : rule).     (* AddMatch(r) / RemoveMa
 (* one atomic action of a foreground future *)
 Inductive instr :=
 | ISub (h : hid) (r : rule)          (* MessageStream::for_match_rule: add_match(r); the stream (object h) holds r *)
-| IAsyncDrop (h : hid)               (* AsyncDrop::async_drop(object h): while h holds a rule: take it, remove_match awaited *)
+| IAsyncDrop (h : hid)               (* AsyncDrop::async_drop(object h): while h holds a rule: take the latest, remove_match awaited *)
 | IDrop (h : hid)                    (* drop(object h): every rule it holds goes to queue_remove_match *)
 | IClone (h' h : hid)                (* MessageStream::clone: h' holds what h holds; no add_match *)
 | IOwnerCheck (p : hid) (r : rule)   (* subscribe_dest_owner_change: dest_owner_change_match_rule.get().is_some() ? *)
@@ -77,11 +77,15 @@ Definition remove_match (r : rule) (s : rule -> nat) (es : list ev) : (rule -> n
 
 Definition holds (h : hid) (x : hid * rule) : bool := (fst x =? h)%N.
 Definition rules_of (h : hid) (l : list (hid * rule)) : list rule := map snd (filter (holds h) l).
-Fixpoint take_first (h : hid) (l : list (hid * rule)) : option (rule * list (hid * rule)) :=
+(* the LAST subscription object h took out (SignalStream::async_drop gives up `signals` before `names`, the reverse of
+   the order in which SignalStream::new subscribed them) *)
+Fixpoint take_last (h : hid) (l : list (hid * rule)) : option (rule * list (hid * rule)) :=
   match l with
   | [] => None
-  | x :: t => if holds h x then Some (snd x, t)
-              else match take_first h t with Some (r, t') => Some (r, x :: t') | None => None end
+  | x :: t => match take_last h t with
+              | Some (r, t') => Some (r, x :: t')
+              | None => if holds h x then Some (snd x, t) else None
+              end
   end.
 Definition has_any (h : hid) (l : list (hid * rule)) : bool := existsb (holds h) l.
 
@@ -93,7 +97,7 @@ Definition exec (i : instr) (rest : prog) (c : conn) : conn * prog :=
   | ISub h r =>
       let '(s, es) := add_match r (subs c) (evs c) in (mk s (pend c) (held c ++ [(h, r)]) es, rest)
   | IAsyncDrop h =>
-      match take_first h (held c) with
+      match take_last h (held c) with
       | Some (r, hl) => let '(s, es) := remove_match r (subs c) (evs c) in (mk s (pend c) hl es, IAsyncDrop h :: rest)
       | None => (c, rest)
       end
